@@ -1,6 +1,7 @@
 #![allow(dead_code, unused_imports)]
 mod c06;
 mod c07;
+mod c08;
 mod c09;
 mod c14;
 mod c15;
@@ -130,6 +131,14 @@ fn plan(prop: &str, tier: &str, seed: u64) -> Plan {
             assumptions: vec!["determinism of the simulator (same trace => same device calls) makes cross-build comparison meaningful".into()],
             extra: serde_json::json!({"builds": ["std+alloc+lfn+unicode (in-process)", "std+lfn+unicode (child process)", "std+alloc+lfn (child process)"]}),
         },
+        "C08" => Plan {
+            batches: c08::batches(tier, seed),
+            level: "exploration",
+            rule: "one evaluation = one object of a builder-made (refgen) volume read through the library and compared with the builder's ground truth, or one API call of a seeded mutating session on such a volume checked by the model, the independent fsck and the raw-diff audit (bytes that differ before/after the call vs ownership decoded before the call); distinct = distinct volume images / abstract states".into(),
+            exhaustive: false,
+            assumptions: vec!["refgen (independent builder) and refdec (independent decoder) are trusted; refgen's output is required to be clean under refdec in every run (harness self-check)".into(), "the volume generator is input generation; the simulator contributes mutation sessions, the raw-diff oracle and device faults".into()],
+            extra: serde_json::json!({}),
+        },
         "C09" => Plan {
             batches: c09::batches(tier, seed),
             level: "fault_enumeration",
@@ -212,7 +221,7 @@ fn main() {
                 }
             }
             if rep.kind != "engine" {
-                let out = c06::replay(&rep.kind, rep.seed).or_else(|| c07::replay(&rep.kind, rep.seed)).or_else(|| c14::replay(&rep.kind, rep.seed)).or_else(|| c17::replay(&rep.kind, rep.seed));
+                let out = c06::replay(&rep.kind, rep.seed).or_else(|| c07::replay(&rep.kind, rep.seed)).or_else(|| c14::replay(&rep.kind, rep.seed)).or_else(|| c17::replay(&rep.kind, rep.seed)).or_else(|| c08::replay(&rep.kind, rep.seed));
                 match out {
                     Some(o) => match o.violation {
                         Some((v, _)) => {
